@@ -233,6 +233,27 @@ def check_C02(tier, seed, replay=None):
     # "however much backtracking or memoised skipping preceded": alternatives with a common prefix rule, so that with Memoize
     # the second alternative resumes after a cache hit; what follows the hit is a newline, a multi-byte rune, or the end
     groups += common_prefix_groups(random.Random(seed + 17), 80 if tier == "quick" else 400, len(groups) + 1)
+    # throw / recover around labelled items: a throw whose recovery expressions are tried and FAIL (parsing goes on through a
+    # choice, an optional or an outer operator) must leave the label scopes as they were: the enclosing action still receives
+    # what was bound before the throw, and what is bound after it
+    from peg import Gram
+    thr2 = []
+    for nfail in (1, 2):
+        for wrapk in range(4):
+            for pre in (False, True):
+                g = Gram(len(groups) + len(thr2) + 1)
+                e = g.seq(([g.un("opt", g.lit([F.EACUTE]))] if pre else []) + [g.throw("la")])
+                for i_ in range(nfail):
+                    e = g.recover(e, g.seq([g.label(g.lit([F.A])), g.lit([F.EURO]), g.lit([F.EURO])]), ["la"] if i_ == 0 else ["lb", "la"])      # binds a label, then fails
+                inner = [lambda: g.choice([e, g.lit([F.EACUTE]), g.lit([])]), lambda: g.un("opt", e), lambda: g.un("star", g.seq([g.cls((F.A, F.EACUTE), (), False, False), e])),
+                         lambda: g.recover(e, g.action(g.un("opt", g.lit([F.A]))), ["la"])][wrapk]()
+                g.rules = [g.action(g.seq([g.label(g.cls((F.A, F.EACUTE), (), False, False)), inner, g.label(g.action(g.un("star", g.any())))]))]
+                g.disp = [""]
+                g.compute_args()
+                g.maydiverge = g.may_diverge()
+                thr2.append(g)
+    groups += thr2
+    groups += F.random_groups(seed + 19, nrand // 4, F.RandCfg(depth=4, maxrules=3, leaves=F.LEAVES_FULL, preds=True, throw=True, errs=0.2), gi0=len(groups) + 1)
     inputs = F.all_inputs(alpha, maxlen)
     rngi = random.Random(seed + 18)
     for _ in range(40 if tier == "quick" else 200):         # a few longer lines: key, newline, key, ...
